@@ -459,3 +459,126 @@ def diff_program(lines, mo, io, rtol=1e-9):
     """a query about a tensor that was never created answers bad-op (model) / rejected (IndexError): same thing"""
     return [(lines[k], m[:300], str(i)[:300]) for k, (m, i) in enumerate(zip(mo, io))
             if not close_line(m, i, rtol) and not (m == 'bad-op' and i == 'rejected' and lines[k].startswith(QUERIES))][:3]
+
+
+# ---------------------------------------------------------------------------- module programs (`mf …` lines)
+class ModImpl:
+    """executes the module-forward protocol lines (`mf …`, lean/SynapModel/Drv/ModuleFwd.lean) on the real synapgrad.nn objects:
+    every `mf linear / neuron / act / flatten / bn / dropout / seq / seqd` line builds ONE object (`m<k>`), a `seq` line hands the
+    very same objects (repetitions included) to nn.Sequential.  Dropout's uniform draws are the ones given on its line (served to
+    `np.random.rand` while a forward runs)."""
+    def __init__(self):
+        self.sg = common.impl()
+        from synapgrad import nn as _nn
+        self.nn = _nn
+        self.ms = []
+        self.streams = {}        # id(dropout object) -> [draws, position]
+        self.cur = None
+
+    @staticmethod
+    def _set(p, vals):
+        """parameter values in place (float64); a buffer of another size than the line says is filled cyclically — the `attrs`
+        line reports its shape"""
+        v = np.array(vals, dtype=np.float64)
+        p.data = v.reshape(p.shape) if v.size == int(np.prod(p.shape)) else np.resize(v, p.shape)
+
+    def _new(self, m):
+        self.ms.append(m)
+        return f'm{len(self.ms) - 1}'
+
+    def _rand(self, *shape):
+        st = self.streams[id(self.cur)]
+        n = int(np.prod(shape)) if shape else 1
+        if st[1] + n > len(st[0]): raise ValueError('no draws left')
+        r = np.array(st[0][st[1]:st[1] + n], dtype=np.float64).reshape(shape)
+        st[1] += n
+        return r
+
+    def run(self, line):
+        t = line.split(' ')
+        assert t[0] == 'mf'
+        c, nn, sg = t[1], self.nn, self.sg
+        if c in ('linear', 'neuron'):
+            if c == 'linear':
+                i, o, hb, wv, bv = int(t[2]), int(t[3]), bool(int(t[4])), t[5], t[6]
+                m = nn.Linear(i, o, bias=hb)
+            else:
+                i, hb, wv, bv = int(t[2]), bool(int(t[3])), t[4], t[5]
+                m = nn.Neuron(i, bias=hb)
+            self._set(m.weight, common.parse_floats(wv))
+            if hb and m.bias is not None: self._set(m.bias, common.parse_floats(bv))
+            return self._new(m)
+        if c == 'act':
+            return self._new({'relu': nn.ReLU, 'tanh': nn.Tanh, 'sigmoid': nn.Sigmoid}[t[2]]())
+        if c == 'flatten':
+            return self._new(nn.Flatten(int(t[2]), int(t[3])))
+        if c == 'bn':
+            mo = None if t[3] == '-' else bitsf(t[3])
+            m = nn.BatchNorm1d(int(t[2]), eps=bitsf(t[4]), momentum=mo, affine=bool(int(t[5])), track_running_stats=bool(int(t[6])), dtype=np.float64)
+            if t[7] != '-': self._set(m.weight, common.parse_floats(t[7]))
+            if t[8] != '-': self._set(m.bias, common.parse_floats(t[8]))
+            return self._new(m)
+        if c == 'dropout':
+            m = nn.Dropout(bitsf(t[2]))
+            self.streams[id(m)] = [common.parse_floats(t[3]), 0]
+            fwd = type(m).forward
+            def forward(x, m=m):
+                self.cur = m
+                return fwd(m, x)
+            object.__setattr__(m, 'forward', forward)
+            return self._new(m)
+        if c == 'seq':
+            return self._new(nn.Sequential(*[self.ms[k] for k in common.parse_ints(t[2])]))
+        if c == 'seqd':
+            from collections import OrderedDict
+            return self._new(nn.Sequential(OrderedDict((e.split(':')[0], self.ms[int(e.split(':')[1])]) for e in t[2].split(','))))
+        if c == 'train':
+            m = self.ms[int(t[2])]
+            m.train() if int(t[3]) else m.eval()
+            return 'ok'
+        if c == 'attrs':
+            m = self.ms[int(t[2])]
+            return (f"in={m.in_features} out={m.out_features} w={show_ints(m.weight.shape)} "
+                    f"b={'-' if m.bias is None else show_ints(m.bias.shape)}")
+        if c == 'fwd':
+            m = self.ms[int(t[2])]
+            a = parse_arr(t[3] + '|' + t[4])
+            x = sg.Tensor(a.copy())
+            orig = np.random.rand
+            np.random.rand = self._rand
+            try:
+                out = m(x)
+            finally:
+                np.random.rand = orig
+            assert np.array_equal(a, x.data)
+            return show_arr(out.data)
+        if c == 'state':
+            m = self.ms[int(t[2])]
+            if isinstance(m, nn.BatchNorm1d):
+                C = m.num_features
+                rm = m.running_mean.data if m.running_mean is not None else np.zeros(C)
+                rv = m.running_var.data if m.running_var is not None else np.ones(C)
+                return f'nbt={m.num_batches_tracked} rm={show_arr(rm)} rv={show_arr(rv)}'
+            if id(m) in self.streams:
+                return f'used={self.streams[id(m)][1]}'
+            return '-'
+        return 'bad-op'
+
+    def exec(self, line):
+        return outcome(lambda: self.run(line))
+
+
+def run_mf(lines):
+    im = ModImpl()
+    return [im.exec(l) for l in lines]
+
+
+def close_tokens(m, i, rtol=1e-9):
+    """answers made of space-separated `key=value` tokens: arrays (`shape|data`) at the tolerance, everything else exactly"""
+    a, b = m.split(' '), i.split(' ')
+    if len(a) != len(b): return False
+    for x, y in zip(a, b):
+        if x == y: continue
+        kx, _, vx = x.rpartition('='); ky, _, vy = y.rpartition('=')
+        if kx != ky or '|' not in vx or not close_arr(vx, vy, rtol): return False
+    return True
